@@ -158,7 +158,9 @@ int64_t asm_main({params}) {{\n  (void)heap;\n{body}  return (int64_t)strtoll(ge
 }
 
 pub fn cmd_rt(seed: u64, n: usize, out: &mut dyn Write) {
-    let mut rng = Rng::new(seed);
+    // Rng::new(s) and Rng::new(s + 1) are the same stream shifted by one step (state = s * gamma + c, step = gamma);
+    // shards use adjacent seeds, so take an unrelated stream per seed
+    let mut rng = Rng::new(seed).fork();
     let repo = repo_root();
     let infra = repo.join("lang/driver/infrastructure");
     let io_c = infra.join("io.c");
@@ -265,7 +267,7 @@ pub fn cmd_rt(seed: u64, n: usize, out: &mut dyn Write) {
         let mut args: Vec<String> = vec![];
         for a in 0..count {
             if use_ood && rng.chance(1, 2) { args.push(rng.pick(&ood).to_string()); continue; }
-            let v = match (j + a) % 7 { 0 => i64::MIN, 1 => i64::MAX, _ => if rng.chance(2, 3) { rng.i64_interesting() } else { rng.next() as i64 } };
+            let v = match (j + a) % 11 { 0 => i64::MIN, 1 => i64::MAX, _ => if rng.chance(2, 3) { rng.i64_interesting() } else { rng.next() as i64 } };
             args.push(format!("{v}"));
         }
         let ret: i64 = match j % 9 { 0 => 0, 1 => 255, 2 => 256, 3 => -1, 4 => (1i64 << 32) + 7, 5 => i64::MIN, 6 => i64::MAX,
